@@ -168,6 +168,7 @@ func (d *sendreqDom) Gen(r *gen.R, tier string, emit func(string)) {
 		emit(l)
 	}
 	emit(wire.Line("slowcb"))
+	emit(wire.Line("slowsilent"))
 	// a real service over the embedded NATS server
 	reps := 2
 	if tier == "thorough" {
@@ -236,9 +237,61 @@ func slowCallback() string {
 	return fmt.Sprintf("slowcb lost-after-extension=%d", bad)
 }
 
+// slowSilent: an extension of 300 ms whose callback takes 400 ms, then silence. The announced
+// duration counts from the pre-response, so the deadline has passed when the callback returns and
+// the timeout error follows at once (about 400 ms after the pre-response); were the deadline only
+// restarted after the callbacks, it would take 700 ms. Three runs in parallel, the quickest one
+// counts (load only ever makes a run slower).
+func slowSilent() string {
+	nc, err := sharedNATS()
+	if err != nil {
+		return "nats-failed"
+	}
+	var wg sync.WaitGroup
+	var mu sync.Mutex
+	best := time.Hour
+	outcome := ""
+	for i := 0; i < 3; i++ {
+		wg.Add(1)
+		go func() {
+			defer wg.Done()
+			c := &scriptConn{subOK: true, pubOK: true, nc: nc}
+			c.events = []struct {
+				t    int
+				data string
+			}{{0, `timeout:"300"`}}
+			var at time.Time
+			r := resprot.SendRequest(c, "call.svc.m", nil, 5*time.Second, func(d time.Duration) {
+				at = time.Now()
+				time.Sleep(400 * time.Millisecond)
+			})
+			el := time.Since(at)
+			mu.Lock()
+			defer mu.Unlock()
+			if el < best {
+				best = el
+			}
+			if !r.HasError() {
+				outcome = "response"
+			} else if outcome == "" && r.Error != nil {
+				outcome = r.Error.Code
+			}
+		}()
+	}
+	wg.Wait()
+	when := "with-the-announced-deadline"
+	if best > 600*time.Millisecond {
+		when = "late"
+	}
+	return "slowsilent " + outcome + " " + when
+}
+
 func (d *sendreqDom) execNow(a []string) string {
 	if len(a) == 1 && a[0] == "slowcb" {
 		return Safe(slowCallback)
+	}
+	if len(a) == 1 && a[0] == "slowsilent" {
+		return Safe(slowSilent)
 	}
 	return Safe(func() string {
 		if len(a) >= 2 && a[0] == "natsend" {
